@@ -1528,6 +1528,7 @@ func addReplace(syntax *FileSyntax, replace *[]*Replace, oldPath, oldVers, newPa
 		if r.Old.Path == oldPath && (oldVers == "" || r.Old.Version == oldVers) {
 			if need {
 				// Found replacement for old; update to use new.
+				r.Old = old
 				r.New = new
 				syntax.updateLine(r.Syntax, tokens...)
 				need = false
